@@ -615,6 +615,11 @@ func replay() {
 			}
 			historySeq(l, h.Menu, fresh, h.Seq)
 		}
+	case "spelling":
+		var sc spellCase
+		if err := mc.LoadReplay(chk.ReplayFile(), &sc); err == nil {
+			spellOne(l, sc)
+		}
 	case "image":
 		kind := "replay"
 		nat := 17 + 4*rc.Version + 2*effMargin(rc.Margin)
@@ -699,6 +704,7 @@ func main() {
 	chk.Sample("image", ijob{m: pKanji, v: 7, lv: 2, sizeKind: 3, margin: 5, n: 40}.rcase())
 
 	runHistory()
+	runSpellings()
 
 	printFailureSummary()
 	chk.Subspace("observed outcome classes (cases)", outcomeTally)
